@@ -189,17 +189,18 @@ _ADDED = {
     "C01": _POP + "; the first instances of a backend created on three threads at once (barrier), each used and one's stripe read through another",
     "C02": "; lists with one index supplied 255/256/257/512/65536 times; a stripe of eleven words per fragment in every configuration",
     "C03": "",
+    "C06": "; follow-up reconstructs from exactly the returned set: required to succeed within tolerance and, for flat-XOR, whenever a requested parity has its whole equation in the set (and the set holds at least k fragments)",
     "C04": _POP + " (pool with an m = 0 shape); the first rs_vand instances of the process created on three threads at once and compared with the closed form",
     "C05": "; payloads of 64 KiB and 128 KiB (thorough 256 KiB, 1 MiB) on every table: parity rebuilt while a data fragment of its equation is lost",
     "C07": "; one fragment per encode rebuilt from the rest into a recycled 16-aligned buffer and compared with the serializer",
-    "C08": "; queries (no encode) at 2^21..2^30 +-1, random lengths in [2^29, 2^31-A) and the largest length whose answer fits the returned int",
-    "C09": "; every third mutant is also queried with the fragment's own header as output struct: same verdict, a refused query leaves every byte alone",
+    "C08": "; queries (no encode) at 2^21..2^30 +-1, random lengths in [2^29, 2^31-A) and the largest length whose answer fits the returned int; libphazr shapes with word sizes 17 / 20 / 30 / 36 (not a whole number of bytes)",
+    "C09": "; every third mutant is also queried with the fragment's own header as output struct: same verdict, a refused query leaves every byte alone; lists mixing headers sealed with the standard and the historical CRC are decoded (also forced) and reconstructed exactly",
     "C10": _POP + " (mixed checksum types); every judged fragment is also validated through an instance of the same shape created with the other checksum type",
     "C11": "; twin pairs under writer stamps 0.9.3..1.1.255 with size fields 2^27..2^32-1",
-    "C12": "; reconstruct with the destination supplied as well, output buffer pre-filled",
+    "C12": "; reconstruct with the destination supplied as well, output buffer pre-filled; four threads writing through one instance (each its own object length), every fragment validated by the thread that was handed it",
     "C14": _POP + " (mixed backends); 300 live rs_vand instances plus 66000 further users of the shared tables (thorough: real instances), then create / destroy / use",
     "C15": "; lists holding a sealed fragment of another layout of the same object (smaller k, larger payload), every fragment end-pinned against a guard page: no read behind fragment_len",
-    "C16": "; every other encode of a history edits the returned fragments in place (magic cleared, fragment overwritten) before cleanup; allocation-failure enumeration also over encode with output variables still holding blocks of the caller and over P-xor-Q reconstructs",
+    "C16": "; every other encode of a history edits the returned fragments in place (magic cleared, fragment overwritten) before cleanup; re-sealed edits go to the lowest listed index half of the time and edited fragments are handed in misaligned every other time; allocation-failure enumeration also over encode with output variables still holding blocks of the caller and over P-xor-Q reconstructs",
     "C17": "; scripts lose as much as the code tolerates (pool has (4,28), (1,31), (2,30)) and decode with forced checks while a payload-damaged fragment is in the list",
     "C18": "; probe mode (ASan): one thread's creates fail in the backend's init while another calls encode and size queries with the descriptor numbers handed out next - never accepted",
     "C19": _POP + " (ISA-L shapes)",
